@@ -457,6 +457,12 @@ def r10_nullspace_preserved(ctx):
               "given substances must be used as given; only `substances is None` builds them from the species names", node=fn)
     d = none_default(fn, "parametric_symbols")
     ctx.check(d is not None and "numbered_symbols(" in U(d), a, "default-symbols", "parametric symbols default only when None", node=fn)
+    # the sign test of a parametric answer (`x.is_negative`) can only decide when the free symbols are known to be positive integers
+    calls_ = [c for c in ast.walk(d) if isinstance(c, ast.Call) and (call_name(c) or "").split(".")[-1] == "numbered_symbols"] if d is not None else []
+    kw_ = {k.arg: U(k.value) for c in calls_ for k in c.keywords}
+    ctx.check(bool(calls_) and kw_.get("integer") == "True" and kw_.get("positive") == "True", a, "default-symbols-positive-integers",
+              "the default free symbols must be created with integer=True and positive=True (a coefficient like -2*x1 - 1 is only recognised as negative, "
+              "and the wrong-side answer refused, when x1 is known to be positive); found %s" % kw_, node=calls_[0] if calls_ else fn)
     # recursive attempts keep the sides where the caller put them
     rec = [c for c in calls_in(fn) if call_name(c) == "balance_stoichiometry"]
     for i, c in enumerate(rec):
@@ -483,7 +489,7 @@ RULES = [
     Rule("C02-R7", r7_duplicates, 5, "duplicate search cannot fall through"),
     Rule("C02-R8", r8_ilp, 5, "ILP formulation"),
     Rule("C02-R9", r9_presence_precheck, 4, "presence pre-check: non-zero (not positive) amount counts as present"),
-    Rule("C02-R10", r10_nullspace_preserved, 20, "solution vector only rescaled as a whole / re-parametrised; switch rebinding; defaults; recursion keeps sides"),
+    Rule("C02-R10", r10_nullspace_preserved, 21, "solution vector only rescaled as a whole / re-parametrised; switch rebinding; defaults; recursion keeps sides"),
 ]
 
 _POS = '    if any(x.is_negative for x in sol):\n        raise ValueError("Unable to balance: species given on the wrong side.")\n'
@@ -517,6 +523,7 @@ MUTANTS.append(Mutant("sol-entry-dropped", [(CHEM, "MutableDenseMatrix([e / fact
 MUTANTS.append(Mutant("switch-rebound-for-every-mode", [(CHEM, "if underdetermined is integer_one:", "if underdetermined is not integer_one:")], "C02-R10", "switch-rebound"))
 MUTANTS.append(Mutant("recursion-swaps-sides", [(CHEM, "                        [sp for sp in reactants if sp != dupl],\n                        [sp for sp in products if sp != dupl],", "                        [sp for sp in products if sp != dupl],\n                        [sp for sp in reactants if sp != dupl],")], "C02-R10", "recursion-keeps-sides"))
 MUTANTS.append(Mutant("recursion-drops-mode", [(CHEM, "                        parametric_symbols=parametric_symbols,\n                        underdetermined=underdetermined,\n", "                        parametric_symbols=parametric_symbols,\n")], "C02-R10", "recursion-forwards:underdetermined"))
+MUTANTS.append(Mutant("default-symbols-not-positive", [(CHEM, 'numbered_symbols("x", start=1, integer=True, positive=True)', 'numbered_symbols("x", start=1, integer=True)')], "C02-R10", "default-symbols-positive"))
 MUTANTS.append(Mutant("recursion-default-substances", [(CHEM, "                        [sp for sp in products if sp != dupl],\n                        substances=substances,\n", "                        [sp for sp in products if sp != dupl],\n")], "C02-R10", "recursion-forwards:substances"))
 MUTANTS.append(Mutant("given-substances-ignored", [(CHEM, "    if substances is None:\n        substances = OrderedDict(\n            [(k, substance_factory(k)) for k in chain(reactants, products)]", "    if substances is not None:\n        substances = OrderedDict(\n            [(k, substance_factory(k)) for k in chain(reactants, products)]")], "C02-R10", "default-substances"))
 TWINS.append(Twin("sol-matrix-division", [(CHEM, "sol = sol.func(*[arg / cd for arg in sol.args])", "sol = sol.func(*[arg * (1 / cd) for arg in sol.args])")]))
